@@ -3,7 +3,9 @@
 ALPHA = [
     # name, snippet, class name, index among citations of that class in the snippet
     ("FA", "Alpha v. Beta, 10 U.S. 100 (1999).", "FullCaseCitation", 0),
-    ("FA2", "Alpha v. Beta, 10 U. S. 100, 105 (1999) (same case, variant spelling).", "FullCaseCitation", 0),
+    # same case, variant spelling, and a year in which the reporters-db edition of U.S. (1875-) was not yet published:
+    # neither the spelling nor the year decides which document is cited
+    ("FA2", "Alpha v. Beta, 10 U. S. 100, 105 (1803) (same case, variant spelling).", "FullCaseCitation", 0),
     ("FA0", "See 10 U.S., 100 (1999).", "FullCaseCitation", 0),  # case A again, without party names and in the comma form
     ("FB", "Gamma v. Delta, 10 U.S. 200 (2001).", "FullCaseCitation", 0),  # same reporter+volume as A
     ("FC", "Alpha v. Omega, 30 F.2d 300 (1950).", "FullCaseCitation", 0),  # shares a party name with A
@@ -22,7 +24,7 @@ ALPHA = [
     ("S_far", "30 F.2d, at 900.", "ShortCaseCitation", 0),  # short form of C whose own page is far beyond C's first page
     ("SU_B", "Delta, supra, at 201.", "SupraCitation", 0),  # unique name -> B
     ("SU_amb", "Alpha, supra, at 5.", "SupraCitation", 0),  # A and C share Alpha
-    ("SU_unk", "Zeta, supra.", "SupraCitation", 0),
+    ("SU_unk", "\u0417\u0435\u0442\u0430, supra.", "SupraCitation", 0),  # a name (in Cyrillic) that no cited case bears
     ("REF_B", "Gamma v. Delta, 10 U.S. 200 (2001). In Gamma at 201 we see.", "ReferenceCitation", 0),
     ("REF_O", "O'Brien v. D'Arcy, 40 F.3d 400 (1995). In O'Brien at 405 we see.", "ReferenceCitation", 0),
     ("SU_O", "D'Arcy, supra, at 402.", "SupraCitation", 0),
@@ -35,12 +37,14 @@ ALPHA = [
 LETTERS = [a[0] for a in ALPHA]
 
 
-def build_pool(copies):
+def build_pool(copies, only=None):
     """pool[letter][k]: K independent objects per letter so repeated letters are distinct objects."""
     from eyecite import get_citations
 
     pool = {}
     for name, snippet, cls, idx in ALPHA:
+        if only is not None and name != only:
+            continue
         objs = []
         for _ in range(copies):
             cs = [c for c in get_citations(snippet) if type(c).__name__ == cls]
